@@ -1375,6 +1375,17 @@ class Qube(object):
                 wod.__dict__[key] = attr
 
         wod._derivs_ = {}
+
+        # The clone needs a cache of its own; only the entries that do not
+        # depend on the derivatives carry over
+        wod._cache_ = {k:v for (k,v) in self._cache_.items()
+                       if k in ('antimask', 'corners', 'slicer')}
+        unshrunk = self._cache_.get('unshrunk', None)
+        if unshrunk is self:
+            wod._cache_['unshrunk'] = wod
+        elif unshrunk is not None:
+            wod._cache_['unshrunk'] = unshrunk.wod
+
         wod._cache_['wod'] = wod
         self._cache_['wod'] = wod
 
